@@ -283,7 +283,9 @@ class Resize(Part):
         a = st.builds(lambda s, n: {"op": "set", "s": s, "n": n}, s, st.one_of(st.integers(0, 100), st.integers(0, 400)))
         a2 = st.builds(lambda s, d: {"op": "set", "s": s, "n": max(0, OC.width(s) + d)}, s, st.integers(-6, 3))
         b = st.builds(lambda s, w, p: {"op": "chop", "s": s, "w": w, "p": min(p, w)}, s, st.integers(2, 40), st.integers(0, 40))
-        return st.one_of(a, a2, b)
+        # the position may lie beyond the width (the wrapper counts the spaces that trail the previous word)
+        b2 = st.builds(lambda s, w, extra: {"op": "chop", "s": s, "w": w, "p": w + extra}, st.one_of(s, st.text(st.sampled_from("abcdefghij"), min_size=5, max_size=40)), st.integers(2, 20), st.integers(1, 30))
+        return st.one_of(a, a2, b, b, b2)
 
     def check(self, spec, ctx):
         from rich import cells as RC
@@ -329,14 +331,14 @@ class Resize(Part):
                 ctx.violation("chop_cells", "C13/chop/concat", "chop_cells(%r,%d,%d) -> %r does not concatenate" % (s, w, p, pieces))
                 return
             for i, piece in enumerate(pieces):
-                lim = w - p if i == 0 else w
+                lim = max(0, w - p) if i == 0 else w
                 if OC.width(piece) > lim:
                     ctx.violation("chop_cells", "C13/chop/fit", "chop_cells(%r,%d,%d) piece %d %r wider than %d" % (s, w, p, i, piece, lim))
                     return
             if len(pieces) > 1:
                 ctx.cls("chop-multi")
                 for i, piece in enumerate(pieces[:-1]):
-                    lim = w - p if i == 0 else w
+                    lim = max(0, w - p) if i == 0 else w
                     nxt = pieces[i + 1]
                     if nxt and OC.cw(nxt[0]) == 2 and OC.width(piece) == lim - 1:
                         ctx.nontrivial = True
